@@ -48,8 +48,9 @@ LAYOUTS = {
 YLAYOUT = {"one": {"time": 12, "station": 4}, "samples": {"time": 4, "station": 4}, "feature": {"time": 12, "station": 2}, "both": {"time": 6, "station": 2}, "element": {"time": 1, "station": 1}}
 
 MODELS_Q = ["EOF", "MCA", "EOFRotator"]
-MODELS_T = ["EOF", "SparsePCA", "POP", "OPA", "ExtendedEOF", "EOFRotator", "MCA", "CPCCA", "MCARotator"]
-CROSS = {"MCA", "CPCCA", "MCARotator"}
+MODELS_T = ["EOF", "EOF+kwargs", "SparsePCA", "POP", "OPA", "ExtendedEOF", "EOFRotator", "EOFRotator2", "MCA", "CPCCA", "MCARotator", "MCARotator2"]
+CROSS = {"MCA", "CPCCA", "MCARotator", "MCARotator2"}
+ROTATORS = {"EOFRotator", "EOFRotator2", "MCARotator", "MCARotator2"}
 
 
 def inputs(seed, small=False):
@@ -61,6 +62,22 @@ def inputs(seed, small=False):
     return x, y
 
 
+def inputs_big(seed):
+    """40 x (6 x 5) field whose spectrum has a gap after the third mode: the randomized routes (sklearn in memory, dask
+    svd_compressed on chunks) are then accurate to ~1e-9 for 3 modes, but only thanks to their power iterations -
+    k + n_oversamples = 13 < rank = 30, so the sketch alone is lossy."""
+    rng = np.random.default_rng([seed, 4030])
+    n, p = 40, 30
+    U, _ = np.linalg.qr(rng.standard_normal((n, p)) - 0.0)
+    U = U - U.mean(axis=0, keepdims=True)
+    U, _ = np.linalg.qr(U)
+    V, _ = np.linalg.qr(rng.standard_normal((p, p)))
+    s = np.concatenate([[10.0, 9.0, 8.0], np.linspace(1.0, 0.5, p - 3)])
+    X = (U * s) @ V.T + rng.standard_normal(p)
+    x = D.da_grid(X, 6, 5, lats=np.linspace(-50, 50, 6))
+    return x, None
+
+
 def build(model, compute, check_nans, deferred):
     import xeofs as xe
 
@@ -68,6 +85,9 @@ def build(model, compute, check_nans, deferred):
     rot = None
     if model == "EOF":
         m = xe.single.EOF(n_modes=3, **kw)
+    elif model == "EOF+kwargs":
+        # a documented pass-through solver option (its default value): must change nothing, also on the dask route
+        m = xe.single.EOF(n_modes=3, solver="randomized", solver_kwargs={"n_oversamples": 10}, **kw)
     elif model == "SparsePCA":
         m = xe.single.SparsePCA(n_modes=2, alpha=1e-3, max_iter=4, **kw)
     elif model == "POP":
@@ -76,16 +96,16 @@ def build(model, compute, check_nans, deferred):
         m = xe.single.OPA(n_modes=2, tau_max=3, n_pca_modes=3, **kw)
     elif model == "ExtendedEOF":
         m = xe.single.ExtendedEOF(n_modes=2, tau=1, embedding=2, **kw)
-    elif model == "EOFRotator":
+    elif model in ("EOFRotator", "EOFRotator2"):
         m = xe.single.EOF(n_modes=3, **kw)
-        rot = xe.single.EOFRotator(n_modes=3, power=1, max_iter=16 if deferred else 1000, compute=compute)
+        rot = xe.single.EOFRotator(n_modes=3, power=1 if model == "EOFRotator" else 2, max_iter=16 if deferred else 1000, compute=compute)
     elif model == "MCA":
         m = xe.cross.MCA(n_modes=2, use_pca=False, **kw)
     elif model == "CPCCA":
         m = xe.cross.CPCCA(n_modes=2, alpha=0.5, use_pca=True, n_pca_modes=3, **kw)
-    elif model == "MCARotator":
+    elif model in ("MCARotator", "MCARotator2"):
         m = xe.cross.MCA(n_modes=2, use_pca=False, **kw)
-        rot = xe.cross.MCARotator(n_modes=2, power=1, max_iter=16 if deferred else 1000, compute=compute)
+        rot = xe.cross.MCARotator(n_modes=2, power=1 if model == "MCARotator" else 2, max_iter=16 if deferred else 1000, compute=compute)
     return m, rot
 
 
@@ -107,11 +127,11 @@ def is_dask(a):
 def workload(case, seed, scheduler_ctx):
     """Run fit(+rot)(+compute) on chunked input inside `scheduler_ctx`; returns (results, observations)."""
     model, layout, compute, check_nans = case["model"], case["layout"], case["compute"], case["check_nans"]
-    x, y = inputs(seed)
+    x, y = inputs(seed) if model != "EOF+kwargs" else inputs_big(seed)
     obs = {}
     if layout != "numpy":
         x = x.chunk(LAYOUTS[layout])
-        y = y.chunk(YLAYOUT[layout])
+        y = y.chunk(YLAYOUT[layout]) if y is not None else None
     m, rot = build(model, compute, check_nans, deferred=not compute)
     sch = scheduler_ctx
     c0 = sch.calls if sch is not None else 0
@@ -145,7 +165,7 @@ def eager_reference(model, seed, deferred=False):
     """The same model on the same data held in memory. A deferred rotator runs a fixed number of iterations (no
     convergence test is possible lazily), so its in-memory counterpart is the same fixed-iteration rotation on numpy
     input (compute=False on in-memory data), not the eagerly converged one."""
-    fixed_iter = deferred and model in ("EOFRotator", "MCARotator")
+    fixed_iter = deferred and model in ROTATORS
     with warnings.catch_warnings():
         warnings.simplefilter("ignore")
         res, _ = workload(dict(model=model, layout="numpy", compute=not fixed_iter, check_nans=True), seed, None)
@@ -202,7 +222,7 @@ def _cmp(a, b, tol):
 
 
 def _tol_vs_eager(model, deferred):
-    if model in ("EOFRotator", "MCARotator"):
+    if model in ROTATORS:
         return 1e-7
     if model == "SparsePCA":
         return 1e-6
@@ -231,6 +251,7 @@ def configs(tier):
             for layout in ("samples", "both"):
                 if (mname, layout) not in (("EOF", "samples"),):
                     add(mname, layout)
+        add("EOF+kwargs", "samples", compute=True, check_nans=True)
         return out
     for mname in MODELS_T:
         for layout in LAYOUTS:
@@ -347,7 +368,7 @@ def run_case(case, seed):
         # (c) confluence: equal to the default schedule's result
         if case["deviations"]:
             dflt = default_result(case, seed)
-            tol = 1e-11 if model not in ("EOFRotator", "MCARotator") else 1e-9
+            tol = 1e-11 if model not in ROTATORS else 1e-9
             for d in _cmp(dflt, _align_signs(model, dflt, res), tol):
                 bad("schedule_dependent_result", "schedule %s vs default: %s" % (case["deviations"], d))
     info = dict(steps=s.steps if len(case["deviations"]) < case.get("bound", 0) else [], calls=s.calls, tasks=s.tasks_run, max_ready=max(s.steps) if s.steps else 0)
